@@ -318,8 +318,22 @@ def run_shard(pid, phase_name, tier, seed, shard, nshards, n_examples):
         out = Stats().dump()
         out["error"] = "".join(
             traceback.format_exception(type(e), e, e.__traceback__))[-6000:]
+    _shutdown_loky()
     out["wall"] = time.time() - t0
     return out
+
+
+def _shutdown_loky():
+    """Do not leave loky's reusable workers to the interpreter exit hooks."""
+    mod = sys.modules.get("joblib.externals.loky.reusable_executor")
+    if mod is None:
+        return
+    try:
+        ex = getattr(mod, "_executor", None)
+        if ex is not None:
+            ex.shutdown(wait=True, kill_workers=True)
+    except Exception:
+        pass
 
 
 def _record_violation(pid, phase, rec, case, exc, shrunk):
